@@ -164,6 +164,10 @@ Section Validate.
                 end
     end.
 
+  (* CDevice2.__init__: cbounds[-1][3] != len(self) -> ValueError *)
+  Definition covers (n : nat) (l : list (pv A)) : bool :=
+    match pv_nth 3 (last l PNone) with PNum e => e =? nofZ (Z.of_nat n) | _ => false end.
+
   Definition ctor (k : cclass) (n : nat) (b cb : pv A) : outcome (rawtable * option (list (pv A))) :=
     obind (device_bounds n b) (fun raw =>
       match table_of raw with
@@ -182,7 +186,7 @@ Section Validate.
                      else set_cbounds n (lows t) (highs t) (PSeq [PNum (vsum (lows t)); PNum (vsum (highs t))])) (fun scb2 =>
                 match scb2 with
                 | Some [_] => Accept (raw, scb2)
-                | Some l => if contiguous_from (PNum (nofZ 0)) l then Accept (raw, scb2) else RaiseValueError
+                | Some l => if covers n l && contiguous_from (PNum (nofZ 0)) l then Accept (raw, scb2) else RaiseValueError
                 | None => RaiseOther
                 end)
             | _ => Accept (raw, scb)
